@@ -114,7 +114,7 @@ fn client_three_leaves<C: secp256k1_zkp::Verification>(
     match NodeInfo::combine(n0, n1) {
         Ok(n01) => {
           proof {   // both leaves of n01 carry a 1-entry branch
-              assert(n01.leaves@[1] == n01.leaves@[n0.leaves@.len() + 0]);
+              assert(n01.leaves@[1] == n01.leaves@[n0.leaves@.len() as int + 0]);
               assert(n01.leaves@[0].merkle_branch.0@.len() == 1 && n01.leaves@[1].merkle_branch.0@.len() == 1);
           }
           match NodeInfo::combine(n01, n2) {
